@@ -469,6 +469,6 @@ MUTANTS = [
     {"id": "eq-ufunc-divide-keeps-zeroing", "kind": "equiv", "file": ZN, "old": "    valid = np.where(divide_standard > 0)\n    zncc[valid] /= divide_standard[valid]\n", "new": "    np.divide(zncc, divide_standard, out=zncc, where=divide_standard > 0)\n"},
     {"id": "eq-rename-i_right", "kind": "equiv", "edits": [(CEN, "i_right", "k_shift", 3)]},
     {"id": "eq-swap-window-dims-of-square-sum", "kind": "equiv", "file": SAD, "old": "strides_windows = (str_row, str_col, str_disp, str_col, str_row)", "new": "strides_windows = (str_col, str_row, str_disp, str_col, str_row)"},
-    {"id": "eq-sum-axis-keyword", "kind": "equiv", "file": SAD, "old": "cost_volume = np.sum(aggregation_window, (0, 1))", "new": "cost_volume = np.sum(aggregation_window, axis=(0, 1))"},
+    {"id": "eq-sum-axis-keyword", "kind": "equiv", "file": SAD, "old": "np.sum(aggregation_window, (0, 1), dtype=np.float64)", "new": "np.sum(aggregation_window, axis=(0, 1), dtype=np.float64)"},
     {"id": "eq-zero-var-not-gt", "kind": "equiv", "file": ZN, "old": "zncc[np.where(divide_standard <= 0)] = 0", "new": "zncc[np.where(~(divide_standard > 0))] = 0"},
 ]
